@@ -909,6 +909,136 @@ def run_ladder(name: str, limit: int):
     return viols, execs, {'ladder': name, 'limit': limit, 'sizes': sizes, 'steps': [c for _, c, _ in costs], 'outcomes': [o for _, _, o in costs]}
 
 
+
+# ------------------------------------------------------------------------------------------------
+# (d) code sweeps: every type code of every TLV container x a set of lengths
+# ------------------------------------------------------------------------------------------------
+# The recorded messages do not hold every registered attribute / TLV / route type.  Rather than copy ExaBGP's registries,
+# every code of each code space is presented once per length of SWEEP_LENS, the value filled with 01 02 03 .. (and with
+# zeros for a few lengths: zero-length nested TLVs are what makes a decoder loop).  Inputs only, no deviations of them.
+SWEEP_LENS = (0, 1, 2, 3, 4, 5, 6, 7, 8, 9, 12, 16, 17, 20, 24, 32)
+SW_BASE = [w.encode_attr(w.ORIGIN, b'\x00'), w.encode_attr(w.AS_PATH, b''), w.encode_attr(w.LOCAL_PREF, struct.pack('!L', 100))]
+SW_NH = w.encode_attr(w.NEXT_HOP, bytes([10, 0, 0, 1]))
+SW_N8 = [w.nlri_ip(1, 1, '10.0.0.0', 8)]
+# a BGP-LS link NLRI and an SR-policy NLRI (from the recorded QA messages) to hang attribute 29 / 23 on
+SW_LS_NLRI = bytes.fromhex('000300300200000000000002bc0100001a0200000400003e34020100040000000002030006010135000041010900051e0a860258')
+SW_SRPOLICY_NLRI = bytes([96]) + struct.pack('!LL', 1, 100) + bytes([10, 0, 0, 9])
+
+
+def _fills(n: int):
+    out = [bytes(range(1, n + 1))]
+    if n in (4, 8, 16):
+        out.append(bytes(n))
+    return out
+
+
+def _mp(afi: int, safi: int, nh: bytes, nlri: bytes) -> bytes:
+    return w.encode_attr(w.MP_REACH, struct.pack('!HBB', afi, safi, len(nh)) + nh + b'\x00' + nlri)
+
+
+def _upd(extra, nlri=False):
+    return w.encode_update(attrs=SW_BASE + ([SW_NH] if nlri else []) + extra, nlri=SW_N8 if nlri else [])
+
+
+def sweep_inputs(name: str):
+    """-> iterator of (type, body) of one sweep family"""
+    nh4 = bytes([10, 0, 0, 1])
+    if name == 'attribute-code':
+        for code in range(256):
+            for flags in (0x40, 0x80, 0xC0, 0x00):
+                for n in SWEEP_LENS:
+                    for f in _fills(n):
+                        yield w.UPDATE, _upd([bytes([flags, code, n]) + f], nlri=True)
+    elif name == 'extended-community':
+        for t in range(256):
+            for st in range(256):
+                yield w.UPDATE, _upd([w.encode_attr(w.EXT_COMMUNITIES, bytes([t, st, 1, 2, 3, 4, 5, 6]))], nlri=True)
+    elif name == 'ipv6-extended-community':
+        for t in (0x00, 0x40, 0x80):
+            for st in range(256):
+                yield w.UPDATE, _upd([w.encode_attr(25, bytes([t, st]) + bytes(range(1, 19)))], nlri=True)
+    elif name == 'bgp-ls-attribute':
+        for t in range(0, 1400):
+            for n in SWEEP_LENS:
+                for f in _fills(n):
+                    yield w.UPDATE, _upd([_mp(16388, 71, nh4, SW_LS_NLRI), w.encode_attr(29, struct.pack('!HH', t, n) + f, flags=0x80)])
+    elif name == 'prefix-sid':
+        for t in range(256):
+            for n in SWEEP_LENS:
+                for f in _fills(n):
+                    yield w.UPDATE, _upd([w.encode_attr(40, bytes([t]) + struct.pack('!H', n) + f)], nlri=True)
+        for top in (5, 6):
+            for st in range(256):
+                for n in SWEEP_LENS:
+                    for f in _fills(n):
+                        v = b'\x00' + bytes([st]) + struct.pack('!H', n) + f
+                        yield w.UPDATE, _upd([w.encode_attr(40, bytes([top]) + struct.pack('!H', len(v)) + v)], nlri=True)
+            for sst in range(256):
+                for n in SWEEP_LENS:
+                    for f in _fills(n):
+                        info = b'\x00' + bytes(16) + b'\x00' + b'\x00\x13' + b'\x00' + bytes([sst]) + struct.pack('!H', n) + f
+                        v = b'\x00' + bytes([1]) + struct.pack('!H', len(info)) + info
+                        yield w.UPDATE, _upd([w.encode_attr(40, bytes([top]) + struct.pack('!H', len(v)) + v)], nlri=True)
+    elif name == 'tunnel-encapsulation':
+        for tt in (0, 8, 15):
+            for st in range(256):
+                for n in SWEEP_LENS:
+                    for f in _fills(n):
+                        sub = bytes([st]) + (bytes([n]) if st < 128 else struct.pack('!H', n)) + f
+                        yield w.UPDATE, _upd([_mp(1, 73, nh4, SW_SRPOLICY_NLRI), w.encode_attr(23, struct.pack('!HH', tt, len(sub)) + sub)])
+        for seg in range(256):
+            for n in SWEEP_LENS:
+                for f in _fills(n):
+                    sl = b'\x00' + bytes([seg, n]) + f
+                    sub = bytes([128]) + struct.pack('!H', len(sl)) + sl
+                    yield w.UPDATE, _upd([_mp(1, 73, nh4, SW_SRPOLICY_NLRI), w.encode_attr(23, struct.pack('!HH', 15, len(sub)) + sub)])
+    elif name == 'route-type':
+        for afi, safi in ((25, 70), (1, 5)):
+            for rt in range(256):
+                for n in range(0, 49):
+                    yield w.UPDATE, _upd([_mp(afi, safi, nh4, bytes([rt, n]) + bytes(range(1, n + 1)))])
+        for arch in (0, 1, 2):
+            for rt in range(0, 8):
+                for n in range(0, 49):
+                    yield w.UPDATE, _upd([_mp(1, 85, nh4, bytes([arch]) + struct.pack('!H', rt) + bytes([n]) + bytes(range(1, n + 1)))])
+    elif name == 'nlri-length':
+        for afi, safi in ((1, 1), (1, 2), (1, 4), (1, 128), (1, 132), (1, 73), (25, 65), (2, 1), (2, 4), (2, 128), (1, 133), (1, 134), (2, 133), (16388, 71), (16388, 72)):
+            nh = bytes(8) + nh4 if safi in (128, 134, 72) else (b'' if safi in (133,) else nh4)
+            for lb in range(256):
+                for extra in (0, 1, -1):
+                    n = max(0, (lb + 7) // 8 + extra)
+                    yield w.UPDATE, _upd([_mp(afi, safi, nh, bytes([lb]) + bytes(range(1, n + 1)))])
+    elif name == 'flowspec-component':
+        for t in range(256):
+            for op in (0x00, 0x01, 0x03, 0x80, 0x81, 0x91, 0xA1, 0xB1, 0xFF, 0x45):
+                for vals in (b'', b'\x01', b'\x01\x02', b'\x18\x0a\x00\x00', b'\x40\x00' + bytes(8)):
+                    comp = bytes([t, op]) + vals
+                    for nl in (bytes([len(comp)]) + comp, bytes([len(comp) + 1]) + comp):
+                        yield w.UPDATE, _upd([_mp(1, 133, b'', nl)])
+    elif name == 'bgp-ls-nlri':
+        for nt in range(0, 12):
+            for proto in (0, 2, 255):
+                for dt in list(range(250, 270)) + list(range(510, 522)) + list(range(1100, 1170)) + [0, 1, 65535]:
+                    for n in (0, 1, 4, 8):
+                        desc = struct.pack('!HH', dt, n) + bytes(range(1, n + 1))
+                        payload = bytes([proto]) + bytes(8) + struct.pack('!HH', 256, len(desc)) + desc
+                        yield w.UPDATE, _upd([_mp(16388, 71, nh4, struct.pack('!HH', nt, len(payload)) + payload)])
+    elif name == 'capability-code':
+        for code in range(256):
+            for n in range(0, 17):
+                yield w.OPEN, w.encode_open(65002, 180, '9.9.9.9', [w.cap_mp(1, 1), (code, bytes(range(1, n + 1)))])
+    elif name == 'operational-type':
+        for what in list(range(0, 32)) + [0xFFFE, 0xFFFF]:
+            for n in range(0, 25):
+                yield OPERATIONAL, struct.pack('!HH', what, n) + bytes(range(1, n + 1))
+    else:
+        raise KeyError(name)
+
+
+SWEEPS = ['attribute-code', 'extended-community', 'ipv6-extended-community', 'bgp-ls-attribute', 'prefix-sid', 'tunnel-encapsulation', 'route-type', 'nlri-length',
+          'flowspec-component', 'bgp-ls-nlri', 'capability-code', 'operational-type']
+SWEEP_SHARDS = {'extended-community': 8, 'bgp-ls-attribute': 6, 'prefix-sid': 6, 'route-type': 6, 'attribute-code': 6, 'flowspec-component': 6, 'tunnel-encapsulation': 4, 'nlri-length': 3, 'bgp-ls-nlri': 3}
+
 # ------------------------------------------------------------------------------------------------
 # workers
 # ------------------------------------------------------------------------------------------------
@@ -981,6 +1111,15 @@ def worker(job):
             _one(res, S, mtype, bytes([b0]), False, 'small')
             for b1 in (range(256) if full else BYTE_VALUES):
                 _one(res, S, mtype, bytes([b0, b1]), False, 'small')
+    elif kind == 'sweep':
+        _, name, shard, nshards = job
+        S = session(PLAIN_SESSION)
+        clear_attribute_cache()
+        for k, (mtype, b) in enumerate(sweep_inputs(name)):
+            if k % nshards != shard:
+                continue
+            res['kinds'][f'sweep-{name}'] += 1
+            _one(res, S, mtype, b, False, 'sweep', do_seam2=True if (k // nshards) % 8 == 0 else 'auto')
     elif kind == 'ladder':
         _, name, limit = job
         clear_attribute_cache()
@@ -1036,6 +1175,11 @@ def jobs_for(tier: str):
     for name in LADDERS:
         jobs.append((4096 * 40, ('ladder', name, 4096)))
         jobs.append((65535 * 60, ('ladder', name, 65535)))
+    # (d) code sweeps
+    for name in SWEEPS:
+        nsh = SWEEP_SHARDS.get(name, 1)
+        for sh in range(nsh):
+            jobs.append((200000, ('sweep', name, sh, nsh)))
     # thorough: pairs
     if tier != 'quick':
         nsh = 8
@@ -1067,7 +1211,8 @@ def run(ctx: core.Ctx) -> None:
     ctx.rule = ('(a) all bodies of length 0-1 for type bytes {0..7,252,255} x 4 sessions (ASN4 on/off x ADD-PATH receive on/off), length 2 in full for types 1..6 on session 0 and with the second byte in {00,01,7f,80,ff} elsewhere; '
                 f'(b) {len(seeds)} frozen seeds x 4 sessions x every single-point deviation (truncation at every offset, every byte <- {{00,01,7f,80,ff,b-1,b+1}}, located length fields <- {{0,-1,+1,max}}, TLV dup/del/swap)'
                 + ('' if ctx.tier == 'quick' else f' + all pairs of byte deviations on seeds <= {PAIR_MAX_LEN} bytes on sessions {PAIR_SESSIONS} (read_message on every 16th pair and on every pair the direct decode flags)')
-                + f'; (c) {len(LADDERS)} scaling ladders N=1,2,4,.. to the 4096- and 65535-byte limits; each input through Message.unpack+forcing and through Protocol.read_message; '
+                + f'; (c) {len(LADDERS)} scaling ladders N=1,2,4,.. to the 4096- and 65535-byte limits; (d) {len(SWEEPS)} code sweeps (every attribute code x 4 flag sets, every extended-community type/subtype, every BGP-LS / prefix-SID / SRv6 / '
+                'tunnel-encapsulation / SR-policy-segment TLV type, every EVPN / MVPN / MUP route type, every NLRI length octet of 15 families, flowspec component types, BGP-LS NLRI/descriptor types, capability codes, operational types, each x a set of value lengths); each input through Message.unpack+forcing and through Protocol.read_message; '
                 'non-trivial = the input passes the message-header size rule and so reaches a body decoder')
     ctx.assumptions += ['validity of seeds and ladder members == vt/ref/wire strict decoder (RFC 7606 3.g for repeated attribute codes); recorded QA messages the reference does not model are presumed valid in session 0',
                         'step budget = Python function entries + jumps (sys.monitoring); C-level cost (bytes slicing) is not counted, so linearity is refutable only in interpreter steps',
@@ -1112,7 +1257,7 @@ def run(ctx: core.Ctx) -> None:
     ctx.counters['transitions'] = ctx.counters.get('executions', 0)
     ctx.counters['seeds'] = len(seeds)
     for k, v in sorted(kinds.items()):
-        ctx.counters[f'deviations_{k}'] = v
+        ctx.counters[f'deviations_{k}' if not k.startswith('sweep-') else k.replace('-', '_', 1)] = v
     ctx.counters['ladder_members'] = sum(len(l['sizes']) for l in ladders)
     ctx.coverage_extra['ladders'] = {f'{l["ladder"]}@{l["limit"]}': {'N': l['sizes'], 'outcome': l['outcomes']} for l in sorted(ladders, key=lambda l: (l['ladder'], l['limit']))}
     ctx.sample({'seed': seeds[0]['name'], 'type': seeds[0]['type'], 'body': seeds[0]['body'].hex()[:120], 'single_deviations': len(deviations(seeds[0]['type'], seeds[0]['body']))})
